@@ -50,6 +50,14 @@ REGISTRY["C13"] = {
             "every blocked peer is woken (virtual loop deadlock detection), statistics() counts equal the true number of open clones at every step.",
     "note": "Trusted: as C12. Outside: >4 parties, uvloop, trio.",
 }
+REGISTRY["C16"] = {
+    "harnesses": ["symx.harness.c16_streams"],
+    "level": "model_checking",
+    "text": "Symbolic execution of the real BufferedByteReceiveStream: the byte string (all 256 values per byte, z3 sequence theory), its chunking, n, max_bytes and the delimiter are symbolic, "
+            "both kinds of wrapped stream, call sequences of 1-3 operations and feed_data are a finite case split; every unit is run to path exhaustion against the prefix-property oracle. "
+            "Text streams: solver-driven finite case split over a 5-character alphabet, 4 encodings and all split points, through the real (C) codecs.",
+    "note": "Trusted: z3 sequence theory, CrossHair's bytes/bytearray modelling, CPython codecs. Outside: longer inputs, suspension inside the wrapped receive(), codec internals.",
+}
 
 NOT_APPLICABLE = {
     "C17": "TLS record framing/fragmentation/truncation happens inside OpenSSL (ssl.SSLObject/MemoryBIO, C code): no available engine can execute it symbolically, and a stub would make the check a statement about the stub (DESIGN.md section 3, C17).",
